@@ -392,6 +392,8 @@ class Exec:
                 st.heap[base.oid] = BBDict(z3.Store(rec.dom, k, True), z3.Store(rec.val, k, val.term if hasattr(val, "term") else val))
                 return
             if isinstance(base, DictV) and isinstance(tgt.value, ast.Name):
+                if any(v_ is base and k_ != tgt.value.id for k_, v_ in st.env.items()):
+                    raise Unsupported(f"the dict bound to {tgt.value.id} has another name as well and is stored into")
                 k = self.name_term(self.ev(tgt.slice, st))
                 if not isinstance(val, (NameV, StrLit)):
                     raise Unsupported("dict store of a non-name value")
@@ -670,8 +672,15 @@ class Exec:
         self.assign(s.target, val, sth)
         res = []
         done2 = Coll(lambda t, d=done, x=x: z3.Or(d.mem(t), t == x))
+        env_in = dict(sth.env)
+        dropped = set(_assigned_names(s))
         for o in self.run_block(s.body, sth):
             if o.kind in ("normal", "continue"):
+                # a local changed by the body (also through .append / .pop, which rebind the name) must be declared as
+                # modified, or be a temporary that is dropped after the loop: otherwise its pre-loop value would survive
+                for k_, v_ in o.st.env.items():
+                    if k_ not in mod_locals and k_ not in dropped and not k_.startswith("__") and env_in.get(k_) is not v_:
+                        raise Unsupported(f"loop #{ordinal} changes local {k_}, which the sidecar does not declare as modified")
                 self._oblige_inv(o.st, lab, inv(self, o.st, done2), "inv-step", s.lineno)
             elif o.kind in ("raise", "return"):
                 res.append(o)
@@ -704,8 +713,13 @@ class Exec:
                 never_runs = True
                 continue  # invariant and loop condition are contradictory: the body is never executed
             never_runs = False
+            env_in = dict(c.st.env)
+            dropped = set(_assigned_names(s))
             for o in self.run_block(s.body, c.st.fork(t)):
                 if o.kind in ("normal", "continue"):
+                    for k_, v_ in o.st.env.items():
+                        if k_ not in mod_locals and k_ not in dropped and not k_.startswith("__") and env_in.get(k_) is not v_:
+                            raise Unsupported(f"while loop #{ordinal} changes local {k_}, which the sidecar does not declare as modified")
                     self._oblige_inv(o.st, lab, inv(self, o.st), "inv-step", s.lineno)
                 elif o.kind in ("raise", "return"):
                     res.append(o)
@@ -1590,7 +1604,9 @@ def _same_heap(h1, h2):
 
 
 def _assigned_names(loop):
-    return {n.id for n in ast.walk(loop) if isinstance(n, ast.Name) and isinstance(n.ctx, ast.Store)}
+    """names bound inside the loop by assignment, for-targets or nested def"""
+    return {n.id for n in ast.walk(loop) if isinstance(n, ast.Name) and isinstance(n.ctx, ast.Store)} | \
+           {n.name for n in ast.walk(loop) if isinstance(n, (ast.FunctionDef, ast.ClassDef))}
 
 
 def _same_env(e1, e2, loop):
